@@ -483,6 +483,18 @@ def expand_macro_rules(src, name: str, invocation: int, report: DropReport, item
     inv = invs[invocation]
     itoks = [t for t in ct if inv.start <= t.start < inv.end]
     o = next(i for i, t in enumerate(itoks) if t.text in R.OPEN)
+    # the matching close of the invocation's delimiter
+    dep = 0
+    oc = None
+    for i in range(o, len(itoks)):
+        if itoks[i].text in R.OPEN:
+            dep += 1
+        elif itoks[i].text in R.CLOSE:
+            dep -= 1
+            if dep == 0:
+                oc = i
+                break
+    itoks = itoks[:oc + 1]
     args = []
     depth = 0
     cur = None
@@ -506,6 +518,17 @@ def expand_macro_rules(src, name: str, invocation: int, report: DropReport, item
                 continue
         if depth >= 1 and cur is not None:
             cur.append(t)
+    if not args and len(metas) == 1:
+        # matcher `$( $S:ident ),+`: a flat comma-separated list, one metavariable
+        flat = [[]]
+        for t in itoks[o + 1:-1]:
+            if t.text == ";":
+                continue
+            if t.text == ",":
+                flat.append([])
+            else:
+                flat[-1].append(t.text)
+        args = [[" ".join(x)] for x in flat if x]
     for tup in args:
         if len(tup) != len(metas):
             raise ExtractError(f"{item}: invocation tuple {tup} does not match metavariables {metas}")
@@ -530,11 +553,11 @@ def expand_macro_rules(src, name: str, invocation: int, report: DropReport, item
                 inner = tokens[i + 2:e]
                 nxt = e + 1
                 sep = None
-                if tokens[nxt].text != "*":
+                if tokens[nxt].text not in ("*", "+"):
                     sep = tokens[nxt].text
                     nxt += 1
-                if tokens[nxt].text != "*":
-                    raise ExtractError(f"{item}: only `*` repetitions are supported")
+                if tokens[nxt].text not in ("*", "+"):
+                    raise ExtractError(f"{item}: only `*` / `+` repetitions are supported")
                 pieces = [subst(inner, dict(zip(metas, tup))) for tup in args]
                 out.append((" " + sep + " ").join(pieces) if sep else " ".join(pieces))
                 i = nxt + 1
